@@ -85,6 +85,7 @@ def _add_latency(w, loop, lat: dict, cut: dict | None = None):
         orig_reset()
     w._deliver, w.close, w.reset = deliver, close, reset
     w.flush_in_flight = flush
+    w.in_flight = q
 
 
 class _Server:
@@ -115,6 +116,58 @@ class _Server:
                 country_code='XX' if exists else None).serialize())
         elif isinstance(msg, m.GetUserStatus.Request):
             writer.write(m.GetUserStatus.Response(msg.username, 2 if msg.username in self.ports else 0, False).serialize())
+
+
+def _frames(buf: bytes):
+    pos = 0
+    while pos + 4 <= len(buf):
+        (n,) = struct.unpack('<I', buf[pos:pos + 4])
+        if pos + 4 + n > len(buf):
+            return
+        yield buf[pos:pos + 4 + n]
+        pos += 4 + n
+
+
+def _ctl_sample(dl, ul, pconns) -> str:
+    """`ctl <d> <rq> <u> <toU> <toD>`: download / upload as the control-plane model sees them, and the control
+    messages that are on their way (in the latency queues of the P connections, or about to be written)"""
+    from aioslsk.transfer.state import TransferState as TS
+    from aioslsk.protocol.messages import (PeerMessage, PeerTransferQueue, PeerTransferRequest, PeerTransferReply,
+                                           PeerUploadFailed)
+    dv = dl.state.VALUE
+    d = {TS.VIRGIN: 'queued', TS.QUEUED: 'queued', TS.INITIALIZING: 'initializing', TS.DOWNLOADING: 'downloading',
+         TS.INCOMPLETE: 'incomplete', TS.COMPLETE: 'complete'}.get(dv)
+    if d is None:
+        d = 'incomplete' if (dv == TS.FAILED and dl.fail_reason is None) else 'user'
+    if ul is None:
+        u = 'none'
+    else:
+        uv = ul.state.VALUE
+        u = {TS.VIRGIN: 'none', TS.QUEUED: 'queued', TS.INITIALIZING: 'initializing', TS.UPLOADING: 'uploading',
+             TS.COMPLETE: 'complete'}.get(uv)
+        if u is None:
+            u = 'failed' if (uv == TS.FAILED and ul.fail_reason is None) else 'refused'
+    to_u, to_d = '', ''
+    for who, a_w, b_w in pconns:
+        for w, sender in ((a_w, who), (b_w, 'up' if who == 'down' else 'down')):
+            for fr in _frames(b''.join(w.in_flight)):
+                try:
+                    m = PeerMessage.deserialize_request(fr)
+                except Exception:
+                    continue
+                if sender == 'down':
+                    if isinstance(m, PeerTransferQueue.Request):
+                        to_u += 'q'
+                    elif isinstance(m, PeerTransferReply.Request):
+                        to_u += 'o' if m.allowed else 'n'
+                else:
+                    if isinstance(m, PeerTransferRequest.Request):
+                        to_d += 'r'
+                    elif isinstance(m, PeerUploadFailed.Request):
+                        to_d += 'f'
+    if ul is not None and u == 'failed' and ul._transfer_task is not None and not ul._transfer_task.done():
+        to_d += 'f'         # `_upload_file` is about to send PeerUploadFailed (waiting for a peer connection)
+    return f"ctl {d} {1 if dl.remotely_queued else 0} {u} {to_u or '-'} {to_d or '-'}"
 
 
 async def _pair_main(loop, case: dict, tmp: str):
@@ -157,7 +210,8 @@ async def _pair_main(loop, case: dict, tmp: str):
         down, up = clients
         # ---- fault injection: the k-th connection that announces itself as a file connection
         cuts = list(case['cuts'])
-        state = {'fconn': 0, 'offsets': [], 'dl_path': None}
+        state = {'fconn': 0, 'offsets': [], 'dl_path': None, 'pconns': []}
+        ctl_lines: list = []
         real_make_pair = net.make_pair
 
         def make_pair(remote_addr):
@@ -197,6 +251,8 @@ async def _pair_main(loop, case: dict, tmp: str):
                         typ = buf[9 + ulen + 4:9 + ulen + 5].decode()
                         if typ == 'P':
                             lat['v'] = case.get('lat_p', LATENCY)
+                            who = buf[9:9 + ulen].decode()
+                            state['pconns'].append((who, a_writer, b_writer))
                         if typ == 'F':
                             lat['v'] = case.get('lat_f', LATENCY)
                             if case.get('hs_split'):
@@ -256,6 +312,13 @@ async def _pair_main(loop, case: dict, tmp: str):
             return ['HARNESS no shared item'], [], vs
         dl = await down.transfers.download('up', remote)
         state['dl_path'] = lambda: dl.local_path
+        def sample():
+            """the control-plane state of the real pair (model: `FileXfer.Ctl.S`), for the invariant of
+            `C04_pair_no_requeue_lost`"""
+            line = _ctl_sample(dl, next((t for t in up.transfers.transfers if t.is_upload()), None), state['pconns'])
+            if not ctl_lines or ctl_lines[-1] != line:
+                ctl_lines.append(line)
+
         # ---- run until the scripted faults are used up, then give the pair time; nobody calls the API again
         waited = 0.0
         def both_complete():
@@ -263,7 +326,9 @@ async def _pair_main(loop, case: dict, tmp: str):
             return dl.state.VALUE == TransferState.COMPLETE and u is not None and u.state.VALUE == TransferState.COMPLETE
 
         while state['fconn'] < len(cuts) + 1 and waited < 4 * 3600 and not both_complete():
-            await advance(5)
+            for _ in range(5):
+                await advance(1)
+                sample()
             waited += 5
             loc = _read(dl.local_path)
             if loc != F[:len(loc)]:
@@ -272,8 +337,10 @@ async def _pair_main(loop, case: dict, tmp: str):
                 break
         t_faults_over = loop.time()
         ul = None
-        for _ in range(int(SETTLE_AFTER_FAULTS / 10)):
-            await advance(10)
+        for i in range(int(SETTLE_AFTER_FAULTS / 10)):
+            for _ in range(10 if i < 6 else 1):
+                await advance(1 if i < 6 else 10)
+                sample()
             ul = next((t for t in up.transfers.transfers if t.is_upload()), None)
             if dl.state.VALUE == TransferState.COMPLETE and ul is not None and ul.state.VALUE == TransferState.COMPLETE:
                 break
@@ -300,7 +367,8 @@ async def _pair_main(loop, case: dict, tmp: str):
                   f'download is {dst}, upload is {ust}, {len(loc)}/{N} bytes, {state["fconn"]} file connections',
                   observed={'down': dst, 'up': ust, 'len': len(loc)},
                   required={'down': 'COMPLETE', 'up': 'COMPLETE', 'len': N})
-        return obs, [], vs
+        sample()
+        return obs + [None] * len(ctl_lines), ctl_lines, vs
     finally:
         for c in clients:
             try:
